@@ -82,6 +82,14 @@ func (c *Collector) Len() int { return len(c.events) }
 
 func (r *Run) handle(f *Family, res Result, col *Collector) {
 	kind, body := res.Req[0], res.Req[1:]
+	r.mu.Lock()
+	if r.firstReq == "" {
+		r.firstReq = string(res.Req)
+		if len(r.firstReq) > 1500 {
+			r.firstReq = r.firstReq[:1500] + "..."
+		}
+	}
+	r.mu.Unlock()
 	if res.Crash != "" {
 		class := "?"
 		if f.Classify != nil {
